@@ -66,6 +66,46 @@ theorem fill_rect_scalar (pn1 : Int) :
   · intro c h; exact charFromU32_scalar _ _ h
   · unfold fillChar charFromU32; split <;> simp_all
 
+/-- why the generator's block family is complete for this parameter (harness/src/unibounds.rs): over the whole parameter
+    space 0..=2^31-1 the accept/reject decision for `v` is the decision for the first member of its 0x800-aligned block,
+    and everything from 0x200000 on is rejected — so one member of each of the 1024 blocks below 0x200000 decides the
+    correct answer for all of them, and an implementation that answers differently anywhere in a block (a hand-written
+    range test with a wrong constant opens or closes whole blocks or their edges) is seen at the block's first, last or
+    sampled member -/
+theorem fill_rect_block_decides (v : Nat) (h : v < 2147483648) :
+    (fillChar (v : Int) = none ↔ fillChar ((v / 2048 * 2048 : Nat) : Int) = none) ∧
+    (2097152 ≤ v → fillChar (v : Int) = none) := by
+  have hb : v / 2048 * 2048 < 4294967296 := by omega
+  have e1 := asU32_nat v (by omega)
+  have e2 := asU32_nat (v / 2048 * 2048) hb
+  unfold fillChar charFromU32
+  rw [e1, e2, ← scalar_block_constant v]
+  constructor
+  · cases isScalar v <;> simp
+  · intro hv
+    have : isScalar v = false := by
+      have := isScalar_iff v
+      cases hs : isScalar v
+      · rfl
+      · rw [hs] at this; have := this.mp rfl; omega
+    simp [this]
+
+/-- the same block structure for the 32-bit character fields of IcyDraw cells -/
+theorem icy_char_block_decides (v : Nat) :
+    (icyChar false v = none ↔ icyChar false (v / 2048 * 2048) = none) ∧ (2097152 ≤ v → icyChar false v = none) := by
+  unfold icyChar charFromU32
+  simp only [Bool.false_eq_true, if_false]
+  rw [← scalar_block_constant v]
+  constructor
+  · cases isScalar v <;> simp
+  · intro hv
+    have : isScalar v = false := by
+      have := isScalar_iff v
+      cases hs : isScalar v
+      · rfl
+      · rw [hs] at this; have := this.mp rfl; omega
+    simp [this]
+
 /-- `Layer::from_clipboard_data`: every 16-bit character field yields a scalar value -/
 theorem clipboard_cell_scalar (lo hi : Nat) : isScalar (clipChar lo hi) = true := clipChar_scalar lo hi
 
@@ -170,6 +210,9 @@ example : fillChar 65 = some 65 := by decide
 example : fillChar 55296 = none := by decide
 example : fillChar 1114112 = none := by decide
 example : fillChar 2147483599 = none := by decide
+example : fillChar 1169408 = none ∧ fillChar (1169408 / 2048 * 2048 : Nat) = none ∧ fillChar 1171455 = none := by decide
+example : fillChar 0xE7FF = some 0xE7FF ∧ fillChar (0xE7FF / 2048 * 2048 : Nat) = some 0xE000 := by decide
+example : icyChar false 0x11D800 = none ∧ icyChar false 0x10FFFF = some 0x10FFFF := by decide
 example : clipChar 0x00 0xD8 = 0xFFFD := by decide
 example : clipChar 0x41 0x00 = 0x41 := by decide
 example : fromClipboard ([0, 0,0,0,0, 0,0,0,0, 1,0,0,0, 1,0,0,0] ++ [0x00, 0xDC, 0,0, 0,0, 0,0,0,0, 7,0,0,0]) = .ok 1 1 [0xFFFD] := by decide
